@@ -33,6 +33,35 @@ CHECKS["C01"] = dict(
     design="DESIGN.md §6 C01",
 )
 
+CHECKS["C02"] = dict(
+    category="model_checking",
+    technique="explicit-state search (BX) over all inbound frame histories on real sessions with a non-interference-by-projection oracle, plus deviation-bounded schedule exploration (DX) of concurrent writers",
+    text="Receive side: every frame history up to depth 5 (thorough 6) over {SYN,PSH,FIN} x ids {1,2,3} on a real server session and up to depth 4 (5) over {PSH,FIN,SYNACK,SYN} on a real client session; stream s must observe exactly what it observes when only its own frames are delivered (differential oracle, no hand-written expectation), every byte carries its stream's tag, single-stream histories agree with a reference model. Send side: 2-3 concurrent writers on distinct streams, both submission paths and directions, <= 2 (3) deviations; wire frames and peer readers carry only the owner's tag, concurrent opens get distinct ids.",
+    note="Trusted: three ids stand for all (dispatch is a map lookup), frames on the receive side are delivered with the session quiescent in between, vpipe environment.",
+    design="DESIGN.md §6 C02",
+)
+CHECKS["C03"] = dict(
+    category="exploration",
+    technique="exhaustive input enumeration (IX) of the real FrameCodec against an independent reference codec",
+    text="All 65536 payload lengths; all 256 command bytes x 39 ids x 8 boundary lengths incl. encode/decode round trip; over-long payloads; every sequence of <=3 frames over a 9-frame alphabet (+ every proper prefix as incomplete tail) under every cut pattern (streams <=16 bytes quick, <=20 thorough) or every <=2/3-cut pattern and byte-at-a-time; every value of each header byte in 4 contexts; all 65536 length-field values against a short buffer; all 1-2 byte strings.",
+    note="Trusted: the 40-line reference codec in harness/src/refmodel.rs; 2^32 ids are represented by 39 (the id is copied, never computed on).",
+    design="DESIGN.md §6 C03",
+)
+CHECKS["C04"] = dict(
+    category="exploration",
+    technique="exhaustive enumeration (IX) of a generated padding-scheme grammar on the real Session write path, wire parsed by a reference parser",
+    text="Every scheme line of <=2 (thorough 3) entries over 16 entry forms (check mark, ranges, reversed, <=0, non-numeric, sizes around and above 65535) x stop in {0,1,2,3,9} x draw policy x 10 payload sizes per packet, plus the real first batch, an 'only line 2' scheme, over-long chunks and the server role; thorough adds sizes >= 2^31 in child processes under RLIMIT_AS. The recorded transport bytes must parse into whole frames and, minus padding frames, equal the submitted frames byte for byte.",
+    note="Trusted: reference parser; the random draw is replaced by the enumerated policies {min, max, min+1} through the H3 hook; healthy transport.",
+    design="DESIGN.md §6 C04",
+)
+CHECKS["C05"] = dict(
+    category="model_checking",
+    technique="exhaustive scheme/payload enumeration against a reference shape acceptor plus deviation-bounded schedule exploration (DX) of concurrent writers",
+    text="Every scheme line of <=2 (thorough 3) entries over 12 entry forms x stop x draw policy x 10 payload sizes: the write lengths of every flush-delimited packet k >= 1 must be accepted by line k (reference acceptor, nondeterministic in the draw), packets >= stop / without a line / on the server side are one unpadded write; the authentication preamble for every line 0; DX with 2-3 concurrent writers and <= 2 (3) pre-emptions checks wire order against packet index.",
+    note="Trusted: the acceptor (refmodel::accept_packet) written from the protocol's shaping rule; sizes > 65535 excluded (C04); a line 0 starting with a check mark may give 0 or its first range.",
+    design="DESIGN.md §6 C05",
+)
+
 NOT_YET = {
 }
 
